@@ -15,7 +15,7 @@ operation.  All theorems hold for every world / history, every fault list and ev
 no well-formedness of the history is needed.
 -/
 namespace AsherahVerif.Props.C03
-open AsherahVerif.Env
+open AsherahVerif.Env AsherahVerif.Env.Res
 
 /-! ### drk_fresh -/
 
